@@ -76,5 +76,40 @@ async fn main() {
         }
         if n > 40000 { break; }
     }
+    // prune points: a 6-entry chain whose entries 2 and 4 are delivered with the prune flag (missing prefix allowed
+    // for them); every delivery order. A delivered operation that is inserted must lie strictly above the stored
+    // height, non-flagged stored entries must backlink to their stored predecessor.
+    let ch6 = rp_stream::chain(&sk, 6);
+    let flagged = [false, false, true, false, true, false];
+    for p in perms(6) {
+        let store = SqliteStore::temporary().await;
+        let mut height: i64 = -1;
+        let mut order = vec![];
+        for i in p.iter() {
+            let o = &ch6[*i];
+            let r = ingest_operation(&store, o, &1u64, &1u64, flagged[*i]).await;
+            n += 1;
+            order.push(o.header.seq_num);
+            let es = entries(&store, &sk).await;
+            let h = es.iter().map(|o| o.header.seq_num as i64).max().unwrap_or(-1);
+            let mut seqs: Vec<u32> = es.iter().map(|o| o.header.seq_num).collect();
+            seqs.sort();
+            let mut bad = None;
+            if seqs.windows(2).any(|w| w[0] == w[1]) { bad = Some("duplicate-sequence-number"); }
+            for e in &es {
+                if e.header.seq_num > 0 && !flagged[e.header.seq_num as usize] && !es.iter().any(|q| q.header.seq_num + 1 == e.header.seq_num && e.header.backlink == Some(q.header.hash())) { bad = Some("unflagged-entry-without-stored-predecessor"); }
+            }
+            if matches!(r, Ok(true)) && (o.header.seq_num as i64) <= height { bad = Some("accepted-operation-not-above-stored-height"); }
+            if h < height { bad = Some("height-decreased"); }
+            height = h;
+            if let Some(class) = bad {
+                if reported.insert(class) {
+                    rp_core::report(true, class, json!({"delivery(seq numbers)": order.clone(), "prune_flag_on_seq": [2, 4]}),
+                        json!({"stored_seqs": es.iter().map(|o| o.header.seq_num).collect::<Vec<_>>(), "ingest_result_ok": r.is_ok()}),
+                        &["oplog::validate_prunable_backlink.ensures#ok_iff_extends_log", "oplog::ingest_operation.ensures#accepted_extends_log", "oplog::ingest_operation.ensures#strictly_above_head", "oplog::validate_prunable_backlink.ensures#strictly_above_head", "oplog::ingest_operation.safety"]);
+                }
+            }
+        }
+    }
     println!("{}", json!({"summary": true, "evaluations": n, "violating_classes": reported}));
 }
